@@ -713,6 +713,74 @@ class Gen:
                 return v
         return dict(t="gauss", data=self.vec(n), icov=self.vec(n, 0.25, 2), a=self.single(n, env, depth - 1))
 
+    def linear(self, n, env, depth):
+        """a LINEAR single-domain tree of size n (the library builds SumOperator / ChainOperator objects with explicit
+        negation flags for these)"""
+        r = self.rng
+        keys_n = [k for k, v in env.items() if len(v) == n]
+        if depth <= 0 or r.random() < 0.25:
+            if keys_n and r.random() < 0.7:
+                return dict(t="var", k=r.choice(keys_n), n=n)
+            k = r.choice(sorted(env))
+            m = len(env[k])
+            return dict(t="lin", m=n, n=m, rows=[self.vec(m, -1, 1) for _ in range(n)], a=dict(t="var", k=k, n=m))
+        c = r.random()
+        if c < 0.45:
+            t = self.linear(n, env, depth - 1)
+            for _ in range(r.choice([1, 1, 2])):
+                t = dict(t=r.choice(["add", "sub", "sub"]), a=t, b=self.linear(n, env, depth - 1))
+            return t
+        if c < 0.6:
+            return dict(t="scale", c=r.choice([-2.0, -1.0, -0.5, 0.5, 2.0, 3.0]), a=self.linear(n, env, depth - 1))
+        if c < 0.72:
+            return dict(t="mulc", d=self.vec(n, nz=True), a=self.linear(n, env, depth - 1))
+        if c < 0.86:
+            m = r.choice([1, 2, 3])
+            return dict(t="lin", m=n, n=m, rows=[self.vec(m, -1, 1) for _ in range(n)], a=self.linear(m, env, depth - 1))
+        ks = r.sample(["p", "q", "r"], r.choice([1, 2]))
+        sizes = {k: (n if i == 0 else r.choice([1, 2, 3])) for i, k in enumerate(ks)}
+        return dict(t="getKey", k=ks[0], a=self.linmulti(sizes, env, depth - 1))
+
+    def linmulti(self, sizes, env, depth):
+        """a LINEAR tree with a multi-domain target: signed sums of adapters, e.g. A('a')->'x' - B('b')->'x' + C('c')->'y'"""
+        r = self.rng
+        terms = []
+        for k, n in sizes.items():
+            for _ in range(r.choice([1, 2, 2, 3])):
+                terms.append(dict(t="putKey", k=k, a=self.linear(n, env, depth - 1)))
+        r.shuffle(terms)
+        t = terms[0]
+        if r.random() < 0.3:
+            t = dict(t="scale", c=-1.0, a=t)
+        for u in terms[1:]:
+            t = dict(t=r.choice(["add", "sub", "sub"]), a=t, b=u)
+        return t
+
+    def linear_case(self, env, depth):
+        """linear expressions as whole operators and as sub-expressions of non-linear ones / energies"""
+        r = self.rng
+        sizes = {k: r.choice([1, 2, 3]) for k in r.sample(["x", "y", "z"], r.choice([1, 2, 2]))}
+        c = r.random()
+        if c < 0.3:
+            return self.linmulti(sizes, env, depth)
+        if c < 0.4:
+            return self.linear(r.choice([1, 2, 3]), env, depth)
+        g = self.linmulti(sizes, env, depth - 1)
+        k0 = sorted(sizes)[0]
+        inner = dict(t="getKey", k=k0, a=g)
+        n = sizes[k0]
+        if c < 0.6:
+            return dict(t="gauss", data=self.vec(n), icov=self.vec(n, 0.25, 2), a=inner)
+        if c < 0.7:
+            return dict(t="sqnorm", a=inner)
+        if c < 0.85:
+            t = self.ptw_node(inner, env)
+            return t if t is not None else inner
+        env2 = pyeval(g, env)
+        if all(_ok_all(v) for v in env2.values()):
+            return dict(t="chain", f=self.scalar(env2, depth - 1) if r.random() < 0.5 else self.single(r.choice([1, 2]), env2, depth - 1), g=g)
+        return g
+
     def varcov(self, env, depth):
         """VariableCovarianceGaussianEnergy on (residual, inverse covariance > 0)"""
         r = self.rng
@@ -773,6 +841,8 @@ class Gen:
                     for _ in range(r.choice([1, 1, 2])):
                         t = dict(t="add", a=t, b=lh(env, depth - 2))
                 wm = r.random() < 0.85
+            elif c < 0.27 and r.random() < 0.5:
+                t = self.linear_case(env, min(depth, 3))
             elif c < 0.27 and len(env) >= 2 and depth >= 3:
                 # Operator.partial_insert: F @ G with G.target != F.domain (both multi-domain)
                 gk = r.sample(["u", "v"], r.choice([1, 2]))
